@@ -530,7 +530,9 @@ func bvRunV2With(w *bvWorld, shared bvZkpGen) (res *bvV2Result) {
 	}
 	for k, party := range sh.Parties {
 		obs := bvPartyObs{ValidOK: true, FailVOK: true, AtomOK: true}
-		if k > 0 {
+		// the packet travels serialized between parties; for every other scenario (even seed) also
+		// between the updater that built it and the first blinder
+		if k > 0 || sh.Seed%2 == 0 {
 			s, err := p.ToBase64()
 			if err != nil {
 				panic("ToBase64: " + err.Error())
@@ -1042,6 +1044,12 @@ func bvGenBytes(asset []byte) []byte {
 // VerifyAmounts (input, its issuance asset, its token, next input...); false is the
 // order the library uses everywhere (all inputs, then all issuance tags).
 func (w *bvWorld) chainTags(tx *transaction.Transaction, interleaved bool) [][]byte {
+	return w.chainTagsView(tx, interleaved, false)
+}
+
+// libView: like the library's BlindOutputs, list the issued asset tag even when the asset amount of
+// the issuance is null (token-only issuance); a verifier lists a tag only for a non-null amount
+func (w *bvWorld) chainTagsView(tx *transaction.Transaction, interleaved bool, libView bool) [][]byte {
 	var ins, iss [][]byte
 	for i, in := range tx.Inputs {
 		po := w.ins[i].prevout
@@ -1053,7 +1061,7 @@ func (w *bvWorld) chainTags(tx *transaction.Transaction, interleaved bool) [][]b
 		}
 		var extra [][]byte
 		if in.Issuance != nil {
-			if !(len(in.Issuance.AssetAmount) == 1 && in.Issuance.AssetAmount[0] == 0) {
+			if libView || !(len(in.Issuance.AssetAmount) == 1 && in.Issuance.AssetAmount[0] == 0) {
 				extra = append(extra, bvGenBytes(w.ins[i].issAsset))
 			}
 			if !(len(in.Issuance.TokenAmount) == 1 && in.Issuance.TokenAmount[0] == 0) {
